@@ -28,11 +28,29 @@ def id_size_of(cfg):
     return cfg.get("param_identifier_size", 8)
 
 
-def rand_id(size, rnd):
-    """`size` random bytes, first byte non-zero (hence not all-zero, and usable as a big-endian integer of that width)."""
-    while True:
+def rand_id(size, rnd, shaped=False):
+    """`size` bytes, not all-zero. shaped=False: uniformly random with a non-zero first byte (what the checks that reason
+    about chance substring hits need). shaped=True: mostly random; sometimes a shape that byte-level parsers may mishandle: leading NUL bytes,
+    trailing NUL bytes, all 0xff, a single set bit."""
+    while not shaped:
         b = bytes(rnd.randrange(256) for _ in range(size))
         if b[0] != 0:
+            return b
+    while True:
+        r = rnd.random()
+        if r < 0.70 or size == 1:
+            b = bytes(rnd.randrange(256) for _ in range(size))
+        elif r < 0.80:
+            z = rnd.randint(1, size - 1)
+            b = b"\x00" * z + bytes(rnd.randrange(1, 256) for _ in range(size - z))          # leading NULs
+        elif r < 0.90:
+            z = rnd.randint(1, size - 1)
+            b = bytes(rnd.randrange(1, 256) for _ in range(size - z)) + b"\x00" * z          # trailing NULs
+        elif r < 0.95:
+            b = b"\xff" * size
+        else:
+            b = (1 << rnd.randrange(8 * size)).to_bytes(size, "big")
+        if any(b):
             return b
 
 
@@ -41,7 +59,29 @@ def rand_kw(rnd, n=None):
     return bytes([rnd.randrange(1, 256)]) + bytes(rnd.randrange(256) for _ in range(n - 1))
 
 
-def make_db(profile, id_size, rnd, kw_len=None, shared_ids=False):
+def shaped_kw(rnd, existing, maxlen):
+    """a keyword with a shape that padding / integer conversion may mishandle: length 1, maximal length, trailing NULs,
+    an existing keyword extended or cut. None if it cannot be made fresh."""
+    r = rnd.random()
+    ex = list(existing)
+    if r < 0.2:
+        k = bytes([rnd.randrange(1, 256)])
+    elif r < 0.4:
+        k = rand_kw(rnd, maxlen)
+    elif r < 0.6:
+        k = rand_kw(rnd, rnd.randint(2, min(8, maxlen))) [:-1] + b"\x00"
+    elif r < 0.8 and ex:
+        k = (rnd.choice(ex) + bytes([rnd.randrange(256)]))[:maxlen]
+    elif ex:
+        k = rnd.choice(ex)[:-1]
+    else:
+        k = rand_kw(rnd, 3)
+    if k and k[0] != 0 and k not in existing and len(k) <= maxlen:
+        return k
+    return None
+
+
+def make_db(profile, id_size, rnd, kw_len=None, shared_ids=False, kw_maxlen=None, shaped_ids=False):
     """profile: list of list lengths -> {keyword: [identifier,...]} in insertion order.
     shared_ids: the same identifier pool is used under every keyword (identifier j of every list is pool[j])."""
     db = {}
@@ -53,13 +93,17 @@ def make_db(profile, id_size, rnd, kw_len=None, shared_ids=False):
             raise ValueError("identifier space too small")
         seen = set()
         while len(pool) < max(profile, default=0):
-            x = rand_id(id_size, rnd)
+            x = rand_id(id_size, rnd, shaped_ids)
             if x not in seen:
                 seen.add(x)
                 pool.append(x)
     for n in profile:
         while True:
-            kw = rand_kw(rnd, kw_len)
+            kw = None
+            if kw_maxlen and rnd.random() < 0.3:
+                kw = shaped_kw(rnd, db, kw_maxlen)
+            if kw is None:
+                kw = rand_kw(rnd, kw_len)
             if kw not in db:
                 break
         if shared_ids:
@@ -69,7 +113,7 @@ def make_db(profile, id_size, rnd, kw_len=None, shared_ids=False):
             raise ValueError("identifier space too small for a duplicate-free list of %d" % n)
         ids, seen = [], set()
         while len(ids) < n:
-            x = rand_id(id_size, rnd)
+            x = rand_id(id_size, rnd, shaped_ids)
             if x not in seen:
                 seen.add(x)
                 ids.append(x)
